@@ -56,7 +56,7 @@ impl Decoder for ZmqCodec {
 
     fn decode(&mut self, src: &mut BytesMut) -> Result<Option<Self::Item>, Self::Error> {
         if src.len() < self.waiting_for {
-            src.reserve(self.waiting_for - src.len());
+            // A declared frame length is not trusted for allocation: the buffer grows as data arrives.
             return Ok(None);
         }
         match self.state {
